@@ -76,9 +76,36 @@ theorem processResult_outer (inp : RunInput) (s : Sys) (n : Name) (nd : Node) :
 structure Plain (s s' : Sys) : Prop where
   ev : ∃ new, s'.events = new ++ s.events ∧ NoStart new
   td : s'.tdown = s.tdown
+  tdn : ∀ d, Ev.teardown d ∈ s'.events → Ev.teardown d ∈ s.events ∨ d ∈ s.tdown
 
 theorem Plain.of_same {s s' : Sys} (e : s'.events = s.events) (t : s'.tdown = s.tdown) : Plain s s' :=
-  ⟨⟨[], by simp [e], noStart_nil⟩, t⟩
+  ⟨⟨[], by simp [e], noStart_nil⟩, t, fun d h => Or.inl (e ▸ h)⟩
+
+/-- no teardown report among these events -/
+def NoTd (l : List Ev) : Prop := ∀ d, Ev.teardown d ∉ l
+
+theorem tdn_of_noTd {s s' : Sys} {new : List Ev} (e : s'.events = new ++ s.events) (h : NoTd new) :
+    ∀ d, Ev.teardown d ∈ s'.events → Ev.teardown d ∈ s.events ∨ d ∈ s.tdown := by
+  intro d hd; rw [e] at hd
+  rcases List.mem_append.mp hd with a | a
+  · exact absurd a (h d)
+  · exact Or.inl a
+
+theorem statusEv_noTd (nd : Node) (n : Name) : NoTd (statusEv nd n) := by
+  intro d he; unfold statusEv at he; split at he <;> simp at he
+
+theorem selEvents_noTd (inp : RunInput) (n : Name) (nd : Node) (d : Sel) : NoTd (selEvents inp n nd d) := by
+  intro x he
+  cases d <;> simp only [selEvents, List.mem_cons] at he
+  all_goals first
+    | (rcases he with he | he
+       · cases he
+       · exact statusEv_noTd nd n x he)
+    | exact statusEv_noTd nd n x he
+    | cases he
+
+theorem resEvents_noTd (n : Name) (o : Outcome) : NoTd (resEvents n o) := by
+  intro d he; cases o <;> simp [resEvents] at he
 
 theorem Plain.of_outer {s s' : Sys} (o : SameOuter s s') : Plain s s' :=
   Plain.of_same o.1 o.2.2.2.2.2.2.2.1
